@@ -52,6 +52,12 @@ def gen(rng):
     p = {"op": op, "inputs": inputs, "pos": gen_pos(rng, n), "early": rng.random() < 0.3,
          "cancel_at": rng.choice([None, None, None, None, 50, 100, 100, 150, 250, 400]),
          "wait": [50, 500] if rng.random() < 0.15 else None, "horizon": 1000}
+    npos = len(p["pos"])
+    if npos >= 2 and rng.random() < 0.25:
+        inner = sorted(rng.sample(range(1, npos + 1), rng.randint(1, npos)))
+        p["nest"] = {"inner": inner, "skip": [q for q in inner if rng.random() < 0.5]}
+    if rng.random() < 0.2:
+        p["out_cb"] = rng.choice(p["pos"])
     return p
 
 
